@@ -385,12 +385,16 @@ class Evaluator:
             ast.copy_location(e2, e)
             return self.ev_Call(e2)
         # forwarding facts
+        # (a local that holds the very tuple / dict -- a helper's parameter
+        # after inlining, `a = args` -- forwards as well)
         fwd_a = self.sig.vararg is None or any(
             isinstance(a, ast.Starred) and isinstance(a.value, ast.Name)
-            and a.value.id == self.sig.vararg for a in e.args)
+            and (a.value.id == self.sig.vararg
+                 or self.env.get(a.value.id) == ("varargs",)) for a in e.args)
         fwd_k = self.sig.kwarg is None or any(
             k.arg is None and isinstance(k.value, ast.Name)
-            and k.value.id == self.sig.kwarg for k in e.keywords)
+            and (k.value.id == self.sig.kwarg
+                 or self.env.get(k.value.id) == ("kwargs",)) for k in e.keywords)
         pos = [a for a in e.args if not isinstance(a, ast.Starred)]
         args = tuple(self.ev(a) for a in pos)
         for a in e.args:
